@@ -356,3 +356,93 @@ def queues_leg(rep, srcdir, tier):
                 if len(fails) >= 4:
                     return fails
     return fails
+
+
+def imtf_leg(rep, srcdir, tier):
+    """spec/Imtf.tla (mtf_one(): sliding-lists inverse move-to-front).
+    (M) small constants: every call sequence, invariants Represents / InPool / NoOverlap / RebuildDst / Permutation.
+    (G) the code's own constants: the spec follows seeded call sequences long enough to force rebuilds, the same
+    invariants are checked in every state, and each behaviour (returned value and offset of row 0 per call) is
+    replayed through the real mtf_one().  Returns [(why, stimulus)]."""
+    import random
+    from concurrent.futures import ThreadPoolExecutor
+    exe = vlib.build_harness("replay_imtf", "replay_imtf.c", srcdir, extra=[os.path.join(srcdir, "crctab.c")])
+    rw, nr, sl, base = map(int, subprocess.run([exe, "consts"], capture_output=True, text=True).stdout.split())
+    if rw * nr != 256 or base != sl - 256 or base <= 0:
+        return [("decode.c: ROW_WIDTH * NUM_ROWS = %d, CMAP_BASE = %d, SLIDE_LENGTH = %d do not describe a 256-entry list inside the pool"
+                 % (rw * nr, base, sl), dict(consts=[rw, nr, sl, base]))]
+    invs = "Represents InPool NoOverlap RebuildDst Permutation"
+
+    def small(cfg):
+        tag, c = cfg
+        d = vlib.spec_workdir("imtf_" + tag, ["Imtf.tla"])
+        with open(os.path.join(d, "MCI.tla"), "w") as f:
+            f.write("---- MODULE MCI ----\nEXTENDS Imtf\nView == <<off, cell, list, ok>>\nD_Indices == 1..(N-1)\nD_Stim == <<>>\n====\n")
+        with open(os.path.join(d, "MCI.cfg"), "w") as f:
+            f.write("SPECIFICATION Spec\nCONSTANTS\n RW = %d\n NR = %d\n SL = %d\n MaxOps = 1000000\n Indices <- D_Indices\n Stim <- D_Stim\n"
+                    "VIEW View\nINVARIANTS %s\nCHECK_DEADLOCK FALSE\n" % (c[0], c[1], c[2], invs))
+        return tag, vlib.tlc(d, "MCI.tla", "MCI.cfg", workers=2, timeout=1500)
+
+    def follow(job):
+        tag, stim = job
+        d = vlib.spec_workdir("imtf_" + tag, ["Imtf.tla"])
+        with open(os.path.join(d, "GI.tla"), "w") as f:
+            f.write("---- MODULE GI ----\nEXTENDS Imtf\nD_Stim == <<%s>>\nD_Indices == {}\n====\n" % ",".join(map(str, stim)))
+        with open(os.path.join(d, "GI.cfg"), "w") as f:
+            f.write("SPECIFICATION Spec\nCONSTANTS\n RW = %d\n NR = %d\n SL = %d\n MaxOps = %d\n Indices <- D_Indices\n Stim <- D_Stim\n"
+                    "INVARIANTS %s Export\nCHECK_DEADLOCK FALSE\n" % (rw, nr, sl, len(stim), invs))
+        return tag, stim, vlib.tlc(d, "GI.tla", "GI.cfg", workers=1, timeout=1500)
+
+    smalls = [("s232", (2, 3, 9)), ("s322", (3, 2, 8))]
+    if tier == "thorough":
+        smalls += [("s233", (2, 3, 7)), ("s242", (2, 4, 10))]
+    rng = random.Random(vlib.seed() + 77)
+    edge = [1, 2, rw - 1, rw, rw + 1, 2 * rw - 1, 2 * rw, 255 - rw, 255 - rw + 1, 254, 255]
+    n = sl - 256 + 600                                     # one rebuild for sure when most calls take the general path
+    stims = [("g_mixed", [rng.choice(edge) if rng.random() < 0.15 else rng.randrange(rw, 256) for _ in range(n)]),
+             ("g_row1", [rng.choice((rw, rw + 1, 2 * rw - 1)) if rng.random() < 0.9 else rng.randrange(1, 256) for _ in range(n)]),
+             ("g_fast", [rng.randrange(1, rw) if rng.random() < 0.5 else rng.randrange(rw, 256) for _ in range(n + n // 4)])]
+    if tier == "thorough":
+        stims += [("g_last", [255 if rng.random() < 0.8 else rng.randrange(1, 256) for _ in range(2 * n)]),
+                  ("g_uniform", [rng.randrange(1, 256) for _ in range(2 * n)])]
+    fails = []
+    with ThreadPoolExecutor(max_workers=8) as ex:
+        fs = list(ex.map(small, smalls))
+        fg = list(ex.map(follow, stims))
+    for tag, r in fs:
+        if r.violated or not r.completed:
+            raise vlib.Infra("Imtf.tla (%s) does not satisfy its own invariants:\n%s" % (tag, r.text[-1500:]))
+        rep.add("states", r.distinct)
+        rep.add("transitions", r.generated)
+    text, behs = [], []
+    for tag, stim, r in fg:
+        if r.violated or not r.completed:
+            raise vlib.Infra("Imtf.tla with the code's constants (%s) violates its invariants:\n%s" % (tag, r.text[-1500:]))
+        rep.add("states", r.distinct)
+        rep.add("transitions", r.generated)
+        b = None
+        for l in r.text.splitlines():
+            if l.startswith('<<"BEHAVIOUR"'):
+                b = json.loads(json.loads(l[l.index('"{'):l.rindex('}"') + 2]))
+        if b is None or len(b["ops"]) != len(stim):
+            raise vlib.Infra("Imtf.tla produced no behaviour for " + tag)
+        ops = b["ops"]
+        rep.add("imtf_rebuilds_in_spec", sum(1 for o in ops if o["rebuilt"]))
+        text.append("%d " % len(ops) + " ".join("%d %d %d" % (o["c"], o["ret"], o["off0"]) for o in ops))
+        behs.append((tag, ops))
+    p = subprocess.run([exe], input="\n".join(text) + "\n", capture_output=True, text=True, timeout=600)
+    summary = [l for l in p.stdout.splitlines() if l.startswith("SUMMARY")]
+    if p.returncode < 0:
+        fails.append(("mtf_one() died with signal %d while replaying Imtf.tla behaviours (%s)" % (-p.returncode, p.stderr[-200:].strip()),
+                      dict(stimuli=[t for t, _ in behs], seed=vlib.seed())))
+    elif not summary:
+        raise vlib.Infra("replay_imtf: no summary: %s %s" % (p.stdout[-300:], p.stderr[-300:]))
+    for line in [l for l in p.stdout.splitlines() if l.startswith("FAIL")][:5]:
+        k = int(line.split()[1])
+        tag, ops = behs[k - 1]
+        fails.append((line, dict(stimulus=tag, seed=vlib.seed(), calls=[o["c"] for o in ops][:64])))
+    rep.add("imtf_behaviours_replayed", len(behs))
+    rep.add("imtf_calls_replayed", sum(len(o) for _, o in behs))
+    rep.add("traces_validated_against_impl", len(behs))
+    rep.sample({"imtf_behaviour": {"stimulus": behs[0][0], "first_calls": behs[0][1][:3], "summary": summary[0] if summary else ""}})
+    return fails
